@@ -303,6 +303,13 @@ def run(ctx):
                     lits.add(sd["lit"]["v"])
     ctx.ob("F-DISPLAY", "integer scanner accepts digits and '-'", digit and "-" in lits, "digit test: %s, char literals: %s" % (digit, sorted(lits)))
 
+    # ---- cross-listed structural conditions (each is a necessary condition of this property as well; round-2 seeds showed changes
+    # to them being caught only by the check of a neighbouring property)
+    import c09, c10
+    c10.rule_I_INDEX(ctx, ev, ctors)          # image placeholder position and component order (enum parser, fold)
+    c10.rule_N_INTERVAL(ctx, maps.FoldMaps(ctx, ev))   # interval value, placeholder ignores what follows its prefix
+    maps.rule_U_CHARS(ctx)                    # borders are char counts
+    c09.rule_W_ENUM(ctx)                      # the spaces the formatter writes are skipped at every token boundary
     # the enum name scanner stops where a copula starts; a recogniser that answers true for a truncated copula cuts a bare atom at the end of the formatter output (D9)
     import fullmatch
     fullmatch.rule_P_FULLMATCH(ctx)
